@@ -5,3 +5,4 @@ import NjectProps.C06b
 import NjectProps.C03C15
 import NjectProps.C13
 import NjectProps.Concurrency
+import NjectProps.C12
